@@ -67,6 +67,9 @@ def parse(fn_node: ast.FunctionDef) -> Nest:
         if isinstance(val, ast.Call) and isinstance(val.func, ast.Attribute) and val.func.attr == "zeros" and isinstance(val.args[0], ast.Tuple):
             if nest.array is not None:
                 raise Unsupported("two arrays allocated")
+            if val.keywords or len(val.args) != 1:
+                # np.zeros(shape) is a float64 array: a stored Python float is kept as it is.  With a dtype (or any other argument) the store may convert the value
+                raise Unsupported("the array is allocated with more than its shape (dtype=...): the store may convert the stored values")
             nest.array = name
             nest.shape = [_shape_key(e, nest.extents) for e in val.args[0].elts]
         else:
